@@ -278,15 +278,41 @@ def other_navigators(ck: Check, n: int) -> None:
             pass
         if not ok:
             ck.fail("dnav-commutes", "DNav: a part of the value is not the value of the part", {"instance": inst})
-        cols = ["h1", "h2", "h3"]
-        wdoc = {"type": "object", "properties": {c: {"type": "string", "position": i} for i, c in enumerate(cols)}}
+        # workbook rows: properties listed in any order, each with an explicit position (any permutation, so position 0 need not
+        # come first), or none at all (then the listing order is the column order)
+        ncol = rng.randint(1, 5)
+        cols = [f"h{j}" for j in range(ncol)]
+        listing = rng.sample(cols, ncol)
+        explicit = rng.random() < 0.7
+        pos = {c: (cols.index(c) if explicit else listing.index(c)) for c in cols}
+        wdoc = {"type": "object", "properties": {c: ({"type": "string", "position": pos[c]} if explicit else {"type": "string"}) for c in listing}}
         wschema = SchemaMaker.from_json(wdoc)
-        rowv = [str(rng.randint(0, 99)) for _ in cols]
+        rowv = [f"c{j}-{rng.randint(0, 99)}" for j in range(ncol)]
         wunp = WBUnpacker()
         wnav = wunp.nav(wschema, rowv)  # type: ignore[arg-type]
-        ck.case(("wbnav", tuple(rowv)), feature="WBNav")
-        if [wnav.name(c).value() for c in cols] != rowv:
-            ck.fail("wbnav-commutes", "WBNav: name(c).value() is not the cell under c", {"row": rowv})
+        winp = {"schema": wdoc, "row": rowv}
+        ck.case(("wbnav", tuple(listing), explicit, tuple(rowv)), feature="WBNav/" + ("explicit-positions" if explicit else "listing-order"))
+        ck.oracle_evaluations += 1
+        try:
+            got = [wnav.name(c).value() for c in listing]
+            if got != [rowv[pos[c]] for c in listing]:
+                ck.fail("wbnav-commutes", f"WBNav: name(c).value() is not the cell at c's position: {got} for row {rowv}, listing {listing}", winp)
+            import tempfile as _tf
+            from pathlib import Path as _P
+            from stingray.workbook import CSV_Workbook
+            with _tf.TemporaryDirectory(prefix="verif_c10_") as td:
+                f = _P(td) / "r.csv"
+                f.write_text(",".join(rowv) + "\n")
+                with CSV_Workbook(f) as wb:
+                    sheet = wb.sheet("").set_schema(wschema)   # rows refer to their sheet weakly: keep it
+                    rows = list(sheet.rows())
+                    vals = rows[0].values()
+                    by_name = [rows[0].name(c).value() for c in listing]
+                if list(vals) != [rowv[pos[c]] for c in listing] or by_name != list(vals):
+                    ck.fail("wbnav-commutes", f"Row.values() = {list(vals)} is not the properties' cells in schema order for row {rowv}, "
+                                              f"listing {listing}", winp)
+        except BaseException as ex:  # noqa: BLE001
+            ck.fail("wbnav-commutes", f"WBNav / Row.values() raises {err_enum(ex)}", winp)
 
 
 def known_shape_d17(ck: Check) -> None:
